@@ -33,7 +33,7 @@ ASSUMPTIONS = [
     "closeness 1e-7 relative to ||X||^2 + ||y||^2 (residuals) and 1e-8 (orthogonality)",
 ]
 DEGRADED = set()
-SHAPES = [(3, 3), (2, 4), (5, 2), (4, 3), (2, 2)]
+SHAPES = [(3, 3), (2, 4), (5, 2), (4, 3), (2, 2), (3, 1), (1, 3), (1, 1)]
 ESTS = ["default", "linreg-noint", "ridge", "linreg-noint-prefitted"]
 
 
@@ -69,6 +69,10 @@ def groups(tier, seed):
                     if np.linalg.matrix_rank(X) < dx:
                         continue
                     out.append(dict(kind="general", X=X.tolist(), Y=Y.tolist()))
+                    if lattice:
+                        # the same integer-valued X handed over with an integer dtype; and data with large offsets
+                        out.append(dict(kind="general", X=X.tolist(), Y=Y.tolist(), int_dtype=True))
+                        out.append(dict(kind="general", X=(X + 7.0).tolist(), Y=(Y * 0.5 - 11.0).tolist()))
             out.append(dict(kind="planted", X=_XY(dx, dy, n, seed, 0, False)[0].tolist(), dx=dx, dy=dy, tier=tier))
     return out
 
@@ -82,8 +86,9 @@ def _planted_maps(dx, dy, tier):
         maps = [q for i, q in enumerate(fam.signed_permutations(dmax)) if i % (97 if tier == "quick" else 7) == 0]
     maps += list(fam.givens_menu(dmax))
     # compose one Givens rotation with a signed permutation for genuinely dense maps
-    g = np.array(next(iter(fam.givens_menu(dmax))))
-    maps += [(g @ np.array(q)).tolist() for i, q in enumerate(fam.signed_permutations(dmax)) if i % 5 == 1][:10]
+    if dmax >= 2:
+        g = np.array(next(iter(fam.givens_menu(dmax))))
+        maps += [(g @ np.array(q)).tolist() for i, q in enumerate(fam.signed_permutations(dmax)) if i % 5 == 1][:10]
     out = []
     for Q in maps:
         Q = np.array(Q, float)
@@ -97,7 +102,7 @@ def cases(group):
             for est in ESTS:
                 if mode == "padded" and est != "default":
                     continue  # the padded mode does not use the linear estimator
-                yield dict(kind="general", X=group["X"], Y=group["Y"], mode=mode, est=est)
+                yield dict(kind="general", X=group["X"], Y=group["Y"], mode=mode, est=est, int_dtype=bool(group.get("int_dtype")))
     else:
         dx, dy = group["dx"], group["dy"]
         dmax = max(dx, dy)
@@ -179,8 +184,9 @@ def check(case):
             Yp0 = np.sin(np.arange(n * py, dtype=float).reshape(n, py) * 1.3) * 2.0 - 0.5
             pol.fit(Xp0, Yp0)
             pol.predict(Xp0)
-            model.fit(X.copy(), Y.copy())
-            pred = np.asarray(model.predict(X.copy()), float)
+            Xin = X.astype(np.int64) if case.get("int_dtype") else X
+            model.fit(Xin.copy(), Y.copy())
+            pred = np.asarray(model.predict(Xin.copy()), float)
             W = np.asarray(model.coef_, float).T  # the map Omega: prediction = X_(padded) @ W
         except Exception as e:
             return r.fail("crash:%s" % type(e).__name__, repr(e))
